@@ -56,6 +56,7 @@ def run_case(case):
         fm = trace.fw_model(f["events"], keep=("SER",))
         pm = trace.py_model(py["events"], keep=("SER",))
         d = trace.compare(fm, pm, timing=False, ignore_pass=True) if f["status"] == "ok" else None
+        out["outside"] = engine.outside_domain({"py_events": py.get("events", []), "live": py.get("live", []), "san_reports": f["san_reports"]})
         out["diverged"] = bool(d)
         out["divergence"] = d
         if gate:
@@ -110,6 +111,10 @@ def main() -> int:
         if res.get("fw_status") in ("uncompilable", None):
             rep.case(None, False)
             rep.count("uncompilable_reported_by_C06")
+            continue
+        if res.get("outside"):
+            rep.case(None, False)
+            rep.count("discarded_outside_domain")
             continue
         rep.case(str(hash(res["script"])), len(res["heap"]) >= 4)
         rep.count("executions_under_asan_ubsan")
